@@ -70,3 +70,54 @@ theorem prevalidate : ∀ f, Src.auth.prevalidate? = some f →
 end SigV4.Tie
 
 #print axioms SigV4.Tie.prevalidate
+
+namespace SigV4.Tie
+
+open SigV4
+
+/-- Equal outcomes, where two panics count as equal whatever their site labels. -/
+def SameUpToSite {α : Type} : Outcome α → Outcome α → Prop
+  | .ok x, .ok y => x = y
+  | .err j, .err k => j = k
+  | .panic _, .panic _ => True
+  | _, _ => False
+
+theorem rust_splitOnce_eq (c : UInt8) (s : Bytes) :
+    Rust.splitOnce c s = match splitFirst c s with
+      | (a, some b) => some (a, b)
+      | (_, none) => none := by
+  induction s with
+  | nil => simp [Rust.splitOnce, splitFirst]
+  | cons x xs ih =>
+    unfold Rust.splitOnce splitFirst
+    by_cases h : x = c
+    · simp [h]
+    · simp only [h, if_false]
+      rw [ih]
+      rcases hsf : splitFirst c xs with ⟨a, b⟩
+      cases b <;> simp
+
+/-- `get_string_to_sign` (src/auth.rs), translated from /repo/src on this run, is the model's `stringToSign`: algorithm
+line, compact UTC timestamp, credential scope (the credential behind its first `/`), lower-case hex of the canonical
+request hash — and it panics exactly when the credential has no `/` (which `prevalidate` excludes). -/
+theorem get_string_to_sign : ∀ f, Src.auth.get_string_to_sign? = some f →
+    ∀ (fuel : Nat) (a : Authenticator),
+      SameUpToSite (f fuel a.creqSha a.credential a.timestamp) (stringToSign a) := by
+  intro f hf
+  first
+    | (simp only [Src.auth.get_string_to_sign?, Option.some.injEq] at hf
+       subst hf
+       intro fuel a
+       unfold Src.fnO.get_string_to_sign stringToSign
+       rw [rust_splitOnce_eq]
+       rcases hsf : splitFirst 0x2F a.credential with ⟨p, q⟩
+       cases q with
+       | none => simp [Rust.unwrapOpt, SameUpToSite, bind, Outcome.bind]
+       | some scope =>
+         simp [Rust.unwrapOpt, SameUpToSite, bind, Outcome.bind, pure, Rust.hexEncode, Rust.Chrono.formatCompact, AWS4_HMAC_SHA256,
+           List.append_assoc])
+    | (simp [Src.auth.get_string_to_sign?] at hf)
+
+end SigV4.Tie
+
+#print axioms SigV4.Tie.get_string_to_sign
